@@ -682,10 +682,11 @@ let rec run toks =
            | _ ->
              (match rreach_dd_fast szs k fs.rule fm.rule fr.rule ts tm with Some t -> t | None -> raise Unsupported))
         | "vm" ->
-          if fs.range <> RInt || fm.range <> RInt || fr.range <> RInt then raise Unsupported;
+          (* the matrix may be boolean (entries 0/1); vector and result are integer *)
+          if fs.range <> RInt || (fm.range <> RInt && fm.range <> RBool) || fr.range <> RInt then raise Unsupported;
           vm_dd szs k fs.rule fm.rule fr.rule ts tm
         | _ ->
-          if fs.range <> RInt || fm.range <> RInt || fr.range <> RInt then raise Unsupported;
+          if fs.range <> RInt || (fm.range <> RInt && fm.range <> RBool) || fr.range <> RInt then raise Unsupported;
           mv_dd szs k fs.rule fm.rule fr.rule tm ts) in
     set_edge r fn t; show r
   | "apply" :: r :: fn :: "cross" :: a :: b :: _ ->
